@@ -21,9 +21,10 @@ type Case struct {
 	Action string // restart | reconnect
 	Point  string // restart: launching (after ACCEPT, before RUNNING) | deployed | mid-transition | running | teardown
 	//               reconnect: configured | running | mid-transition
-	Drops int // reconnect: how many times the stream is dropped (1-3)
-	Envs  int // number of environments alive (1-2)
-	Bare  bool // reconnect: reconciliation answers as the master generates them (no executor id, labels, uuid)
+	Drops           int  // reconnect: how many times the stream is dropped (1-3)
+	Envs            int  // number of environments alive (1-2)
+	Bare            bool // reconnect: reconciliation answers as the master generates them (no executor id, labels, uuid)
+	RefuseFirstKill bool // restart: the master answers the first KILL call for every surviving task with HTTP 503
 }
 
 var hostNames = []string{"hosta", "hostb", "hostc"}
@@ -46,6 +47,9 @@ func run(c Case) (res vh.Result) {
 	}
 	res.NonTrivial = true
 	res.Classes = []string{"action:" + c.Action, "point:" + c.Point, fmt.Sprintf("bare-answers:%v", c.Bare)}
+	if c.RefuseFirstKill {
+		res.Classes = append(res.Classes, "first-kill-refused")
+	}
 
 	mkwf := func(k int) string {
 		wf := fmt.Sprintf("wfr%d", k)
@@ -76,11 +80,17 @@ func run(c Case) (res vh.Result) {
 		return simworld.Reply{}
 	}
 	slowKill := false
+	refuseKills := false
+	refused := map[string]bool{}
 	w.Master.OnKill = func(t *simworld.SimTask) simworld.KillPlan {
 		mu.Lock()
 		defer mu.Unlock()
 		if slowKill {
 			return simworld.KillPlan{Delay: 3 * time.Second}
+		}
+		if refuseKills && !refused[t.ID] {
+			refused[t.ID] = true
+			return simworld.KillPlan{RefuseHTTP: 503}
 		}
 		return simworld.KillPlan{}
 	}
@@ -165,6 +175,7 @@ func run(c Case) (res vh.Result) {
 		w.KillCore()
 		mu.Lock()
 		slowKill, silentLaunch = false, false
+		refuseKills = c.RefuseFirstKill
 		mu.Unlock()
 		alive := map[string]bool{}
 		for _, t := range w.Master.Tasks() {
@@ -202,7 +213,7 @@ func run(c Case) (res vh.Result) {
 				}
 				killed := false
 				for _, cl := range w.Master.Calls()[mark:] {
-					if cl.Type == "KILL" && cl.TaskID == id {
+					if cl.Type == "KILL" && cl.TaskID == id && cl.HTTP == 0 { // a KILL call the master accepted
 						killed = true
 					}
 				}
@@ -378,6 +389,7 @@ func gen(t *rapid.T) Case {
 	c.Action = rapid.SampledFrom([]string{"restart", "reconnect"}).Draw(t, "action")
 	c.Bare = rapid.Bool().Draw(t, "bareReconciliationAnswers")
 	if c.Action == "restart" {
+		c.RefuseFirstKill = rapid.IntRange(0, 3).Draw(t, "refuseFirstKill") == 0
 		c.Point = rapid.SampledFrom([]string{"launching", "deployed", "mid-transition", "running", "teardown"}).Draw(t, "point")
 	} else {
 		c.Point = rapid.SampledFrom([]string{"configured", "running", "mid-transition"}).Draw(t, "point")
@@ -400,6 +412,7 @@ func TestFixed(t *testing.T) {
 			vh.Fixed(t, prop, "reconnect-"+p, Case{NTasks: 2, Envs: 2, Action: "reconnect", Point: p, Drops: 2}, vh.Confirmed(run))
 		}
 		vh.Fixed(t, prop, "reconnect-bare-answers", Case{NTasks: 2, Envs: 2, Action: "reconnect", Point: "configured", Drops: 1, Bare: true}, vh.Confirmed(run))
+		vh.Fixed(t, prop, "restart-first-kill-refused", Case{NTasks: 2, Envs: 1, Action: "restart", Point: "deployed", RefuseFirstKill: true}, vh.Confirmed(run))
 		vh.Fixed(t, prop, "restart-bare-answers", Case{NTasks: 2, Envs: 1, Action: "restart", Point: "running", Bare: true}, vh.Confirmed(run))
 	}
 }
